@@ -1,4 +1,66 @@
-From Coq Require Import ZArith List Bool.
-From PW Require Import Model.Base Model.OptionsJson.
-Theorem C16_placeholder : True. Proof. exact I. Qed.
-Print Assumptions C16_placeholder.
+(* C16 — Options serialise to the WebAuthn JSON wire format and parse back unchanged. *)
+From Coq Require Import ZArith List Bool String.
+From PW Require Import Model.Base Model.Json Model.Base64 Model.Oracles Model.CredJson Model.Options Model.OptionsJson
+  Generated.Constants Spec.OptionsSpec Proofs.OptionsJsonProofs.
+Import ListNotations.
+Open Scope Z_scope.
+
+(* the JSON value handed to json.dumps satisfies the wire-shape predicate: spec member names, enum strings, numeric alg
+   ids, every binary member unpadded base64url, optional members omitted (never null) *)
+Theorem C16_creation_schema : forall o, creation_wf o -> creation_schema (creation_options_json o) = true.
+Proof. exact creation_schema_ok. Qed.
+Print Assumptions C16_creation_schema.
+Theorem C16_request_schema : forall o, request_wf o -> request_schema (request_options_json o) = true.
+Proof. exact request_schema_ok. Qed.
+Print Assumptions C16_request_schema.
+
+(* every options object reachable from the generator over admissible arguments is of that kind *)
+Theorem C16_generated_are_wellformed : forall draw a n o n',
+  (forall i, bytes_ok (draw i) = true) -> reg_args_wf a -> gen_reg draw a n = Ok (o, n') ->
+  creation_wf o /\ exists att, co_attestation o = Some att.
+Proof. exact generated_creation_options_wf. Qed.
+Print Assumptions C16_generated_are_wellformed.
+
+(* parsing the produced JSON value returns the original up to the documented defaults
+   (empty transport list -> None; unset requireResidentKey / userVerification -> False / preferred) *)
+Theorem C16_creation_roundtrip : forall O o, creation_wf o -> (exists a, co_attestation o = Some a) ->
+  parse_reg_options_json O (inr (creation_options_json o)) = Ok (norm_creation o).
+Proof. exact creation_roundtrip. Qed.
+Print Assumptions C16_creation_roundtrip.
+Theorem C16_request_roundtrip : forall O o, request_wf o ->
+  parse_auth_options_json O (inr (request_options_json o)) = Ok (norm_request o).
+Proof. exact request_roundtrip. Qed.
+Print Assumptions C16_request_roundtrip.
+
+(* text form: whatever json.loads makes of the text is what is parsed *)
+Theorem C16_text_form : forall O s j, o_json_loads O true s = JOk j ->
+  parse_reg_options_json O (inl s) = parse_reg_options_json O (inr j) /\
+  parse_auth_options_json O (inl s) = parse_auth_options_json O (inr j).
+Proof. intros O s j H. unfold parse_reg_options_json, parse_auth_options_json, load_obj. rewrite H. split; reflexivity. Qed.
+Print Assumptions C16_text_form.
+
+(* refusals with the structure exception *)
+Theorem C16_refuse_creation : forall O m, required_ok m = false ->
+  parse_reg_options_json O (inr (JObj m)) = Err (Lib InvalidJSONStructure).
+Proof. exact creation_refuses. Qed.
+Print Assumptions C16_refuse_creation.
+Theorem C16_refuse_request_challenge : forall O m, (forall s, jget_none m (jstr "challenge") <> JStr s) ->
+  parse_auth_options_json O (inr (JObj m)) = Err (Lib InvalidJSONStructure).
+Proof. exact request_refuses_challenge. Qed.
+Print Assumptions C16_refuse_request_challenge.
+Theorem C16_refuse_request_user_verification : forall O m ch, jget_none m (jstr "challenge") = JStr ch ->
+  (forall s, jget_none m (jstr "userVerification") = JStr s -> in_strs spec_uv s = false) ->
+  parse_auth_options_json O (inr (JObj m)) = Err (Lib InvalidJSONStructure).
+Proof. exact request_refuses_uv. Qed.
+Print Assumptions C16_refuse_request_user_verification.
+Theorem C16_refuse_non_object : forall O j, (forall m, j <> JObj m) ->
+  parse_auth_options_json O (inr j) = Err (Lib InvalidJSONStructure) /\
+  parse_reg_options_json O (inr j) = Err (Lib InvalidJSONStructure).
+Proof. exact options_not_object. Qed.
+Print Assumptions C16_refuse_non_object.
+Theorem C16_enums_are_spec :
+  map snd transport_enum = spec_transports /\ map snd user_verification_enum = spec_uv /\
+  map snd attachment_enum = spec_attachment /\ map snd resident_key_enum = spec_resident_key /\
+  map snd attestation_pref_enum = spec_attestation /\ map snd hint_enum = spec_hints.
+Proof. exact enums_are_spec. Qed.
+Print Assumptions C16_enums_are_spec.
